@@ -308,7 +308,9 @@ func loopSourceOf(fn *ssa.Function, lp *loopInfo) (ssa.Value, bool) {
 func c01see(p *Prog, r *Report) {
 	const rule = "C01.see"
 	r.Rule(rule, 4, "ancestry is computed from per-creator indexes with non-strict >=; merging coordinates keeps the larger index")
-	idx := func(v ssa.Value) bool { return flowsFromField(v, "Index") || flowsFromCall(v, named(HG+".Event.Index"), 0) }
+	idx := func(v ssa.Value) bool {
+		return flowsFromField(v, "Index") || flowsFromCall(v, named(HG+".Event.Index"), 0)
+	}
 	for _, spec := range []struct {
 		fn       string
 		hiField  string // the side that must be >=: derived from this map field
@@ -508,7 +510,9 @@ func c01fame(p *Prog, r *Report) {
 		if w.Fn != wd {
 			continue
 		}
-		q := func(l Lit) bool { return !l.Pos && flowsFrom(l.V, func(x ssa.Value) bool { fv, _ := fieldOf(x); return fv == fDec }) }
+		q := func(l Lit) bool {
+			return !l.Pos && flowsFrom(l.V, func(x ssa.Value) bool { fv, _ := fieldOf(x); return fv == fDec })
+		}
 		if g, _ := p.allPaths(w.Instr, []Pred{q}, all(1)); !g {
 			okSticky = false
 		}
